@@ -33,6 +33,7 @@ import PdshVerif.Relay.Interleave
 import PdshVerif.Relay.Simulation
 import PdshVerif.Relay.DomIff
 import PdshVerif.Relay.IndexSim
+import PdshVerif.Relay.Poll
 
 namespace PdshVerif.C05
 open PdshVerif.Relay
@@ -374,6 +375,131 @@ theorem abandoned_stream_relays_what_was_read (cfg : Cfg) (host t0host : Bytes) 
     rw [hems, List.map_append, List.map_map]
     simp only [Spec.c06Ok, List.take_left' hlen, List.drop_left' hlen, Bool.and_eq_true, beq_iff_eq]
     exact ⟨rfl, hto⟩
+
+/-! ### the poll / read / report loop of `_rsh_thread` (one worker, both descriptors)
+
+  `pollStep` (Relay/Model.lean) is the loop as a transition system: the environment chooses arrivals and
+  hang-ups on either descriptor, which descriptors each `xpoll` return reports (any subset, also spuriously),
+  how many bytes the one read(2) of a handler call delivers (short reads; 0 = EAGAIN), and interrupted
+  polls (EINTR: `continue`) -- in ANY order.  A read that fails with EINTR is retried inside cbuf.c and never
+  shows.  Leaving the loop early (command timeout, poll error) = the event list stops there.  After the
+  loop come the two `_flush_output` calls (`workerFinish`).  `acceptedOf isErr evs false` = everything the
+  remote side wrote on that descriptor before closing it. -/
+
+/-- the bytes the handler of one descriptor wrote, final flush included, out of ALL stdio calls of the worker -/
+def writtenBy (calls : List (Bool × Em)) (isErr : Bool) : Bytes :=
+  written ((calls.filter (fun x => x.1 = isErr)).map (·.2))
+
+theorem written_of_closed_form (cfg : Cfg) (host : Bytes) (strm : Nat) (x : Bytes) (h0 : ∀ b ∈ x, b ≠ 0) :
+    written ((Spec.lines x).map (fun l => (⟨strm, labelPrefix cfg.labels cfg.keep host ++ l⟩ : Em)) ++
+        tailEms cfg host strm ((Spec.tail x).length + 1) (Spec.tail x) false) =
+      Spec.render (labelPrefix cfg.labels cfg.keep host) x := by
+  have h0t : ∀ b ∈ Spec.tail x, b ≠ 0 := fun b hb => h0 b (mem_of_mem_rest hb)
+  obtain ⟨ht, _⟩ := tailEms_flatten cfg host strm _ (Spec.tail x) (Nat.lt_succ_self _) h0t
+  unfold written
+  rw [List.map_append, List.flatten_append, ht]
+  unfold Spec.render
+  congr 1
+  simp only [List.map_map, List.flatMap]
+  rfl
+
+/-- THE LOOP IS LEFT ONLY AT EOF OF BOTH STREAMS, EVERYTHING READ.  After ANY event sequence: a descriptor
+    the worker has closed (fd = -1) is one whose remote side has closed and whose data has all been read; so
+    when `while (xpfds[0].fd >= 0 || xpfds[1].fd >= 0)` is over, both streams have reached EOF and nothing
+    is left in either descriptor. -/
+theorem poll_loop_left_only_at_eof_of_both (cfg : Cfg) (host : Bytes) {sizeMeta : Nat} (hg : growthOk sizeMeta = true)
+    {b0 : PBuf} (hb0 : mkFifoBuf sizeMeta = some b0) (evs : List PEv)
+    (hdO : Spec.Dom05 (markerOf true) (acceptedOf false evs false) = true)
+    (hdE : Spec.Dom05 (markerOf false) (acceptedOf true evs false) = true) :
+    (evs.foldl (pollStep fifoOps cfg host) (Worker.init b0)).loopLeft = true →
+      (evs.foldl (pollStep fifoOps cfg host) (Worker.init b0)).out.1.weof = true ∧
+      (evs.foldl (pollStep fifoOps cfg host) (Worker.init b0)).out.1.pipe = [] ∧
+      (evs.foldl (pollStep fifoOps cfg host) (Worker.init b0)).err.1.weof = true ∧
+      (evs.foldl (pollStep fifoOps cfg host) (Worker.init b0)).err.1.pipe = [] := by
+  have hinv := pollRun_inv cfg host (dom_room hdO) (dom_room hdE) evs (Worker.init b0) [] []
+    (by simp [Worker.init]) (by simp [Worker.init]) (worker_init_inv cfg host hg hb0)
+  intro hl
+  simp only [Worker.loopLeft, Bool.and_eq_true] at hl
+  obtain ⟨h1, h2⟩ := hinv.out.2 hl.1
+  obtain ⟨h3, h4⟩ := hinv.err.2 hl.2
+  exact ⟨h1, h2, h3, h4⟩
+
+/-- ... AND IT IS LEFT THEN: the handler call on an open descriptor whose remote side has closed and whose
+    data has been read (read returns 0) closes it, whatever the cap of the read; a call that still finds data,
+    or finds nothing on a descriptor that is not at EOF (EAGAIN), leaves it open.  (Per descriptor, in any
+    state the loop can be in: `SInv` is the invariant `pollRun_inv` establishes.) -/
+theorem handler_closes_exactly_at_eof (cfg : Cfg) (host : Bytes) (strm : Nat) (readRc : Bool) {sizeMeta : Nat}
+    {S fed fut : Bytes} (hS : fed ++ fut = S) (hdom : Spec.Dom05 (markerOf readRc) S = true)
+    {st : SState PBuf} (hinv : SInv cfg host strm readRc sizeMeta fed st) (hopen : st.1.closed = false)
+    (cap : Option Nat) :
+    (sstep fifoOps cfg host strm readRc st (.call cap)).1.closed = true ↔ (st.1.weof = true ∧ st.1.pipe = []) :=
+  sstep_call_closed cfg host strm readRc hS (dom_room hdom) hinv hopen cap
+
+/-- WHATEVER THE WORKER HAS READ HAS BEEN WRITTEN WHEN IT IS DONE -- for every event sequence, however the loop
+    was left (both streams at EOF, command timeout, poll error).  Per descriptor there is a prefix `x` of what
+    the remote side wrote, the rest being exactly what still sits unread in the descriptor, such that the bytes
+    written for it (handler calls in the loop + its `_flush_output`) are the labelled `x`: complete, in order,
+    exactly once, unterminated tail included. -/
+theorem worker_delivers_what_it_read (cfg : Cfg) (host t0host : Bytes) {sizeMeta : Nat}
+    (hg : growthOk sizeMeta = true) {b0 : PBuf} (hb0 : mkFifoBuf sizeMeta = some b0) (evs : List PEv)
+    (hdO : Spec.Dom05 (markerOf true) (acceptedOf false evs false) = true)
+    (hdE : Spec.Dom05 (markerOf false) (acceptedOf true evs false) = true) :
+    ∃ xo xe : Bytes,
+      xo ++ (evs.foldl (pollStep fifoOps cfg host) (Worker.init b0)).out.1.pipe = acceptedOf false evs false ∧
+      xe ++ (evs.foldl (pollStep fifoOps cfg host) (Worker.init b0)).err.1.pipe = acceptedOf true evs false ∧
+      writtenBy (workerRun fifoOps cfg host t0host b0 evs) false = Spec.render (labelPrefix cfg.labels cfg.keep host) xo ∧
+      writtenBy (workerRun fifoOps cfg host t0host b0 evs) true = Spec.render (labelPrefix cfg.labels cfg.keep host) xe := by
+  have hinv := pollRun_inv cfg host (dom_room hdO) (dom_room hdE) evs (Worker.init b0) [] []
+    (by simp [Worker.init]) (by simp [Worker.init]) (worker_init_inv cfg host hg hb0)
+  unfold workerRun
+  generalize evs.foldl (pollStep fifoOps cfg host) (Worker.init b0) = w at hinv ⊢
+  obtain ⟨xo, hxo, hfo, h0o⟩ := stream_closed_form cfg host 1 true t0host hdO hinv.out.1
+  obtain ⟨xe, hxe, hfe, h0e⟩ := stream_closed_form cfg host 2 false t0host hdE hinv.err.1
+  refine ⟨xo, xe, hxo, hxe, ?_, ?_⟩
+  · unfold writtenBy
+    rw [workerFinish_logOf, hinv.logO]
+    simp only [Bool.false_eq_true, ↓reduceIte]
+    rw [hfo]
+    exact written_of_closed_form cfg host 1 xo h0o
+  · unfold writtenBy
+    rw [workerFinish_logOf, hinv.logE]
+    simp only [↓reduceIte]
+    rw [hfe]
+    exact written_of_closed_form cfg host 2 xe h0e
+
+/-- A WORKER RETURNS ONLY AFTER ITS OUTPUT HAS BEEN DELIVERED (the clause of C03; exported for it).  When the
+    loop has been left because both descriptors are closed, ALL that the remote command wrote on stdout and on
+    stderr has been handed to stdio by the time the two flushes return -- i.e. before `rcmd_destroy`, before the
+    worker decrements `threadcount` and signals dsh(): byte for byte the labelled streams. -/
+theorem worker_done_has_delivered_everything (cfg : Cfg) (host t0host : Bytes) {sizeMeta : Nat}
+    (hg : growthOk sizeMeta = true) {b0 : PBuf} (hb0 : mkFifoBuf sizeMeta = some b0) (evs : List PEv)
+    (hdO : Spec.Dom05 (markerOf true) (acceptedOf false evs false) = true)
+    (hdE : Spec.Dom05 (markerOf false) (acceptedOf true evs false) = true)
+    (hleft : (evs.foldl (pollStep fifoOps cfg host) (Worker.init b0)).loopLeft = true) :
+    writtenBy (workerRun fifoOps cfg host t0host b0 evs) false =
+      Spec.render (labelPrefix cfg.labels cfg.keep host) (acceptedOf false evs false) ∧
+    writtenBy (workerRun fifoOps cfg host t0host b0 evs) true =
+      Spec.render (labelPrefix cfg.labels cfg.keep host) (acceptedOf true evs false) := by
+  obtain ⟨_, hpo, _, hpe⟩ := poll_loop_left_only_at_eof_of_both cfg host hg hb0 evs hdO hdE hleft
+  obtain ⟨xo, xe, hxo, hxe, ho, he⟩ := worker_delivers_what_it_read cfg host t0host hg hb0 evs hdO hdE
+  rw [hpo, List.append_nil] at hxo
+  rw [hpe, List.append_nil] at hxe
+  subst hxo; subst hxe
+  exact ⟨ho, he⟩
+
+/-- non-vacuity: "ab\n" then "c" arrive on stdout, "e\n" on stderr; polls with a short read of 1 byte, a
+    spurious wake-up, an interrupted poll; both sides close; the loop is left and everything is written -/
+example : ∀ b0, mkFifoBuf 1 = some b0 →
+    let evs : List PEv := [.arrive false [97, 98, 10], .poll (some (some 1)) none, .eintr, .arrive true [101, 10],
+      .poll (some none) (some (some 0)), .arrive false [99], .hup false, .poll (some none) (some none),
+      .hup true, .poll (some none) (some none), .poll none (some none)]
+    (evs.foldl (pollStep fifoOps ⟨true, false, false, false, false⟩ [104]) (Worker.init b0)).loopLeft = true ∧
+    workerRun fifoOps ⟨true, false, false, false, false⟩ [104] [104] b0 evs =
+      [(false, ⟨1, [104, 58, 32, 97, 98, 10]⟩), (true, ⟨2, [104, 58, 32, 101, 10]⟩), (false, ⟨1, [104, 58, 32, 99]⟩)] := by
+  intro b0 h
+  simp [mkFifoBuf, Cbuf.Spec.create, Gen.RELAY_CBUF_MIN, Gen.RELAY_CBUF_MAX] at h
+  subst h
+  decide
 
 /-! ### outside the domain: what the code does with lines over 128 KiB and with NUL bytes
 
